@@ -347,6 +347,7 @@ def _events(ctx, label):
         elif e[0] == "packer-raised":
             ctx.note("packer %s raised %s" % (e[1], e[2]))
         elif e[0] == "walked":
+            _S.setdefault("decoded_devices", set()).update(tuple(d) for d in e[2].get("_devices", ()))
             for k, v in e[2].items():
                 if k[:4] in ("GSUB", "GPOS") or k == "Extension":
                     ctx.note("written %s" % k, v)
@@ -655,6 +656,7 @@ def run_spec(case, ctx):
     settings = [(p, None) for p in m.get("ppems", [None])] if not m.get("locs") else [(None, l) for l in m["locs"]]
     if m.get("locs") and m.get("ppems"):
         settings += [(p, l) for p in m["ppems"][1:4] for l in m["locs"][1:3]]
+    _S.pop("decoded_devices", None)
     try:
         data, summ = _spec_build(ctx, m, case["rep"], case["level"])
     except Exception as e:
@@ -662,6 +664,31 @@ def run_spec(case, ctx):
         ctx.violation(exc_mech("save", e, source="spec:" + case["name"], repacker=case["rep"], compaction=bool(case["level"])),
                       "compiling tables built from spec %s raised %s: %s" % (case["name"], type(e).__name__, str(e)[:300]), None)
         return
+    if m.get("ppems"):
+        # the hinting Device tables struct-decoded from the written GPOS/GDEF are the spec's
+        want = set()
+
+        def scan(x):
+            if isinstance(x, dict):
+                if "devspec" in x:
+                    st_, en_, fm_ = x["devspec"]
+                    want.add((st_, en_, fm_, tuple(x["dev"].get(p_, 0) for p_ in range(st_, en_ + 1))))
+                for v_ in x.values():
+                    scan(v_)
+            elif isinstance(x, (list, tuple)):
+                for v_ in x:
+                    scan(v_)
+
+        scan(m["GPOS"])
+        scan(m.get("carets"))
+        got_devs = _S.pop("decoded_devices", set())
+        ctx.judged()
+        if got_devs != want:
+            ctx.violation({"kind": "device-decode", "source": "spec:" + case["name"], "what": "decoded Device tables differ from the spec"},
+                          "Device tables decoded from the written tables differ from the spec: unexpected %s, missing %s"
+                          % (sorted(got_devs - want)[:3], sorted(want - got_devs)[:3]), {"spec": case["name"], "seed": case["seed"]})
+        else:
+            ctx.note("Device tables struct-decoded and equal to the spec", len(want))
     bad = fired = ntexts = 0
     data0 = None
     for ppem, loc in settings:
